@@ -540,6 +540,17 @@ Step(st, ev) ==
     [] ev.step = "Disc" ->
          IF st.conns[ev.conn].life = "closed" THEN Out1(st, NoOut, "closed")
          ELSE {DiscOf(st, ev.conn)}
+    [] ev.step = "Wire" ->
+         \* wire level (real sockets, made sequential with ping barriers): the frame is received, a parked update
+         \* is flushed by the next frame of the sender's session and processed; a handler error ends the connection
+         \* at once (HandleDisconnect has run before the next step)
+         LET c   == ev.conn
+             st1 == RecvOf(st, c, ev.req)
+             sts == IF IsParked(ev.req) THEN TickOf(st1, st1.conns[c].sid) ELSE {st1}
+             os  == UNION {ProcOf(x, c) : x \in sts}
+         IN { IF o.ret = "ok" THEN o
+              ELSE LET d == DiscOf(o.st, c) IN [st |-> d.st, out |-> [x \in Conns |-> o.out[x] \o d.out[x]], ret |-> "err"]
+              : o \in os }
 
 (***************************************************************************)
 (* Well-formedness of the authoritative state (sequential invariants;      *)
